@@ -25,7 +25,7 @@ RULE = (
     "steppers: J t = S(t) and S is linear; the same through ex.rollout / ex.repeat; parameter "
     "derivatives: forward mode equals central differences, reverse mode (jax.grad of <w, step>) equals "
     "<w, forward derivative>; every derivative finite whenever the primal is finite. Non-trivial: "
-    "||J t|| > 1e-9 ||t|| and the output depends on the parameter."
+    "||J t|| > 1e-9 ||t|| and the output depends on the parameter. Structured strata: purely real symbols (all odd-order coefficients exactly 0) for every order with one-entry directions; list entries / scalars exactly 0; derivative finiteness and J = S at the rest state u = 0."
 )
 ASSUMPTIONS = [
     "float64 session; central differences with relative step 1e-6 (tolerance 1e-6*max|derivative| + 1e-8*max|output|)",
